@@ -1,6 +1,7 @@
 pub mod logcap;
 pub mod prng;
 pub mod report;
+pub mod wedge;
 
 pub use prng::Rng;
 pub use report::{Args, Reporter};
